@@ -15,7 +15,7 @@ PROPERTY = "C08"
 LEVEL = "exploration"
 BUDGET_S = {"quick": 50, "thorough": 900}
 FLOOR = {"quick": 2000, "thorough": 20000}
-MUST_REACH = ("invariant_evaluations", "writebacks_judged", "codec_contract_evaluations")
+MUST_REACH = ("invariant_evaluations", "writebacks_judged", "codec_contract_evaluations", "reassignments_judged")
 RULE = ("port expressions: 5 operators x operands from boundaries {1,2,65534,65535}, table numbers +-1, uniform 1..65535 "
         "and names; eq/neq with 1..10 distinct operands (IOS) or 1 (NX-OS); range in both operand orders incl. a=b and "
         "windows straddling powers of two; empty denotations lt 1 / gt 65535; thorough: gt N and lt N for every N in "
@@ -154,6 +154,18 @@ def execute(ctx, case: dict) -> None:
         problems.append(f"rendered {line0!r} unreadable: {ex}")
     for prob in problems:
         ctx.violation(case, "port expression does not denote the Cisco port set", prob)
+    # reassignment history: the same object gets other expressions; the invariant tap judges every assignment
+    for other in case.get("reassign", []):
+        try:
+            port.line = other
+        except (ValueError, TypeError):
+            continue
+        ctx.count("reassignments_judged")
+        want2 = reader.read_port(other.split(), 0, 6 if proto == "tcp" else 17)[0]
+        if want2 is not None and (intervals.from_ints(port.ports) != want2[2] or port.sport != intervals.encode(want2[2])):
+            ctx.violation(case, "after reassigning the line, ports/sport still describe the previous expression",
+                          {"now": other, "sport": port.sport[:60], "expected": intervals.encode(want2[2])[:60]})
+        line0, wset, want = port.line, want2[2], want2
     # write-back history
     for view in case.get("history", []):
         try:
@@ -243,8 +255,17 @@ def gen_cases(ctx):
             hist = [v for v in hist if v == "items"] or ["items"]
             if rng.random() < 0.04:
                 hist.append(rng.choice(["ports", "sport"]))
-        yield {"k": "expr", "text": port["text"], "proto": proto, "platform": platform, "version": version,
-               "port_nr": rng.random() < 0.3, "history": hist}
+        case = {"k": "expr", "text": port["text"], "proto": proto, "platform": platform, "version": version,
+                "port_nr": rng.random() < 0.3, "history": hist}
+        toks = port["text"].split()
+        if rng.random() < 0.3 and all(t.isdigit() for t in toks[1:]) and toks[0] != "neq" and len(set(toks[1:])) == len(toks[1:]):
+            # same operands, other operator (and back)
+            alts = {1: ["eq", "lt", "gt"], 2: ["range", "eq"] if platform == "ios" else ["range"]}.get(len(toks) - 1, [])
+            alts = [a for a in alts if a != toks[0]]
+            if alts:
+                case["reassign"] = [f"{rng.choice(alts)} " + " ".join(toks[1:]) for _ in range(rng.randint(1, 2))]
+                case["history"] = hist[:2]
+        yield case
 
 
 def run(ctx) -> None:
